@@ -52,6 +52,7 @@ type Obligation struct {
 	NAssume int // number of assumptions (prefix of Engine.assumes) in force
 	Func    string
 	Clause  string // contract clause label/source when it stems from one
+	Short   bool   // listed as an open known finding: it is expected to fail, so it gets a short budget
 	Tainted bool   // generated after a loop clause failed to bind: a failure is undecided, not a violation
 	// filled by discharge
 	Result SolverResult
